@@ -360,6 +360,34 @@ fn ed25519(cfg: &Cfg, rep: &mut Report, h: u64) {
         rep.case(format!("ed25519/signature-bit/{}", accepted(&r)));
         rep.check("corrupt", !accepted(&r), "C18/corrupt/ed25519/accepted/signature-bit", || "signature bit flipped, still accepted".to_string());
     }
+    // key and signature handed over as byte strings of other lengths: the genuine bytes followed by more,
+    // or cut short, are not the key / the signature
+    {
+        let raw = |k: &[u8], s: &[u8]| -> Result<bool, Fail> { invoke(e, &c, "verify", args!(e, Bytes::from_slice(e, &payload), Bytes::from_slice(e, k), Bytes::from_slice(e, s))) };
+        let r = raw(&pk, &sig);
+        rep.check("genuine", accepted(&r), "C18/genuine/ed25519/rejected/as-byte-strings", || format!("genuine key and signature passed as byte strings of 32 / 64 bytes rejected: {r:?}"));
+        for extra in [1usize, 32, 64] {
+            let mut s2 = sig.to_vec();
+            s2.extend((0..extra).map(|_| rng.below(256) as u8));
+            let r = raw(&pk, &s2);
+            rep.evaluations += 1;
+            rep.case(format!("ed25519/signature-followed-by-bytes/{}", match &r { Ok(b) => b.to_string(), Err(f) => f.tag() }));
+            rep.check("corrupt", !accepted(&r), "C18/corrupt/ed25519/accepted/signature-followed-by-bytes", || format!("a genuine signature followed by {extra} more bytes was accepted"));
+            let mut k2 = pk.to_vec();
+            k2.extend((0..extra).map(|_| rng.below(256) as u8));
+            let r = raw(&k2, &sig);
+            rep.evaluations += 1;
+            rep.case(format!("ed25519/key-followed-by-bytes/{}", match &r { Ok(b) => b.to_string(), Err(f) => f.tag() }));
+            rep.check("corrupt", !accepted(&r), "C18/corrupt/ed25519/accepted/key-followed-by-bytes", || format!("the genuine key followed by {extra} more bytes was accepted"));
+        }
+        for cut in [1usize, 32] {
+            let r = raw(&pk, &sig[..64 - cut]);
+            rep.check("corrupt", !accepted(&r), "C18/corrupt/ed25519/accepted/signature-cut-short", || format!("signature cut by {cut} bytes accepted"));
+            let r = raw(&pk[..32 - cut.min(31)], &sig);
+            rep.check("corrupt", !accepted(&r), "C18/corrupt/ed25519/accepted/key-cut-short", || "key cut short accepted".to_string());
+            rep.evaluations += 2;
+        }
+    }
     // other lengths of payload are signed bytes too: a signature over a prefix is not one over the whole
     let r = call(&payload[..31], &pk, &sig);
     rep.check("corrupt", !accepted(&r), "C18/corrupt/ed25519/accepted/payload-truncated", || "truncated payload accepted".to_string());
@@ -506,7 +534,7 @@ fn extractor(cfg: &Cfg, rep: &mut Report) {
 }
 
 pub fn run(cfg: &Cfg, rep: &mut Report) {
-    rep.rule = "Per history a fresh P-256 (resp. Ed25519) key pair and 32-byte payload; a genuine assertion built with independent crypto (p256, ed25519-dalek, sha2) must be accepted by the real verifier examples; then single corruptions: every bit of the payload (256), sampled bits of key / signature / authenticator data / client data, all 256 flag bytes re-signed (accept iff UP and UV and not(BS without BE)), client-data shapes (member order, further and nested members, white space; decoys of type / challenge inside other members), type variants, challenge variants (padded, standard alphabet, other payload, truncated, empty, hex, case), client data of 1023/1024/1025/2000 bytes, authenticator data of 33/36/37/120 bytes, payloads of 0/1/31 bytes, another signer; key data followed by a credential id of 1/16/64/300 bytes (accepted), shifted, cut short or behind another key (rejected); signature data that is empty, random, truncated XDR or XDR of another type (rejected); Ed25519 payloads of 0/1/31/33/48/64/100 bytes (genuine accepted, prefix signature and altered tail rejected). Encoder: all inputs of length 0-2 exhaustively (split over shards), random inputs of every length 3..=100, fill patterns. extract_from_bytes::<1|4|32|65> against the slice model over the four range forms (Some(data[a..b]) iff b <= len and b-a == N, else None, never a trap). Distinct case = (verifier, corruption kind or flag bits, outcome). Not judged: WebAuthn payloads longer than 32 bytes (documented: first 32 bytes used) and algebraic signature malleability (host behaviour).".into();
+    rep.rule = "Per history a fresh P-256 (resp. Ed25519) key pair and 32-byte payload; a genuine assertion built with independent crypto (p256, ed25519-dalek, sha2) must be accepted by the real verifier examples; then single corruptions: every bit of the payload (256), sampled bits of key / signature / authenticator data / client data, all 256 flag bytes re-signed (accept iff UP and UV and not(BS without BE)), client-data shapes (member order, further and nested members, white space; decoys of type / challenge inside other members), type variants, challenge variants (padded, standard alphabet, other payload, truncated, empty, hex, case), client data of 1023/1024/1025/2000 bytes, authenticator data of 33/36/37/120 bytes, payloads of 0/1/31 bytes, another signer; key data followed by a credential id of 1/16/64/300 bytes (accepted), shifted, cut short or behind another key (rejected); signature data that is empty, random, truncated XDR or XDR of another type (rejected); Ed25519 payloads of 0/1/31/33/48/64/100 bytes (genuine accepted, prefix signature and altered tail rejected); key and signature as byte strings followed by 1/32/64 more bytes or cut short (rejected). Encoder: all inputs of length 0-2 exhaustively (split over shards), random inputs of every length 3..=100, fill patterns. extract_from_bytes::<1|4|32|65> against the slice model over the four range forms (Some(data[a..b]) iff b <= len and b-a == N, else None, never a trap). Distinct case = (verifier, corruption kind or flag bits, outcome). Not judged: WebAuthn payloads longer than 32 bytes (documented: first 32 bytes used) and algebraic signature malleability (host behaviour).".into();
     let nh = cfg.pick(12u64, 1200);
     for k in 0..nh {
         if cfg.runs(k) {
